@@ -196,24 +196,26 @@ func (m *Manager) getPrimaryStatus(status map[string]interface{}) map[string]int
 	replicas := make([]map[string]interface{}, 0, replicaCount)
 
 	for id, session := range m.primary.sessions {
+		connected, active, lastAck, lastActivity := session.snapshot()
+
 		// Track active and connected counts
-		if session.Connected {
+		if connected {
 			connectedReplicas++
 		}
-		if session.Active && session.Connected {
+		if active && connected {
 			activeReplicas++
 		}
 
 		// Create detailed replica info
 		replicaInfo := map[string]interface{}{
 			"id":                id,
-			"connected":         session.Connected,
-			"active":            session.Active,
-			"last_activity":     session.LastActivity.UnixNano() / int64(time.Millisecond),
-			"last_ack_sequence": session.LastAckSequence,
+			"connected":         connected,
+			"active":            active,
+			"last_activity":     lastActivity.UnixNano() / int64(time.Millisecond),
+			"last_ack_sequence": lastAck,
 			"listener_address":  session.ListenerAddress,
 			"start_sequence":    session.StartSequence,
-			"idle_time_seconds": time.Since(session.LastActivity).Seconds(),
+			"idle_time_seconds": time.Since(lastActivity).Seconds(),
 		}
 
 		replicas = append(replicas, replicaInfo)
